@@ -256,13 +256,17 @@ def exc_code(e):
 
 
 def in_model(kind, case):
-    return case[0] not in (102, 103, 104)
+    return case[0] not in (102, 103, 104, 105)
 
 
 def impl(case):
     if case[0] == 104:  # replay of one reader()-preemption schedule
         import c11_atomic
         f = c11_atomic.replay(case)
+        return [0, []] if f is None else [1, [f["what"]]]
+    if case[0] == 105:  # replay of one commit-window schedule
+        import c11_atomic
+        f = c11_atomic.replay_commit_window(case)
         return [0, []] if f is None else [1, [f["what"]]]
     if case[0] == 103:  # replay of one B-tree snapshot-isolation run
         f = c11_immut.replay_isolation(case)
@@ -467,9 +471,10 @@ def oracle(ctx, kind, case, out):
     if isinstance(out, Err):
         fail("history runner failed: " + out.text, -1)
         return F
-    if case[0] in (102, 103, 104):
+    if case[0] in (102, 103, 104, 105):
         if out[0]:
-            fail(("immutability: " if case[0] == 102 else "snapshot isolation: " if case[0] == 103 else "reader() atomicity: ") + "; ".join(x.decode("latin-1") if isinstance(x, bytes) else str(x) for x in out[1]), -1)
+            fail(("immutability: " if case[0] == 102 else "snapshot isolation: " if case[0] == 103 else
+                  "commit atomicity: " if case[0] == 105 else "reader() atomicity: ") + "; ".join(x.decode("latin-1") if isinstance(x, bytes) else str(x) for x in out[1]), -1)
         return F
     zk, ops = case
     history = [1]              # every id ever committed, in order
